@@ -36,6 +36,18 @@ class _SavedSlice(threading.local):
 
 
 _saved_slice = _SavedSlice()
+
+
+class _SavedExprStmtRet(threading.local):
+    # the value of a module-level expression statement as the after_stmt handlers left it, between the
+    # after_stmt emission and the `_load_saved_expr_stmt_ret` emission that hands it to after_module_stmt.
+    # Kept here, per thread and written after the handlers have run, for the same reasons as the saved slice:
+    # a handler-kept slot was overwritten by other threads and by statements run inside handlers, and only
+    # saw what was left BEFORE the last tracer.
+    value = None
+
+
+_saved_expr_stmt_ret = _SavedExprStmtRet()
 _SUBSCRIPT_EVENT_NAMES = {
     "before_subscript_load",
     "before_subscript_store",
@@ -195,5 +207,11 @@ def _emit_event(event, node_id, **kwargs):
     elif event == "_load_saved_slice":
         saved = _saved_slice.value
         _saved_slice.value = None
+        return saved
+    elif event == "after_stmt":
+        _saved_expr_stmt_ret.value = kwargs.get("ret")
+    elif event == "_load_saved_expr_stmt_ret":
+        saved = _saved_expr_stmt_ret.value
+        _saved_expr_stmt_ret.value = None
         return saved
     return _make_ret(event, kwargs.get("ret"))
